@@ -53,7 +53,7 @@ class Op:
 class Task:
     __slots__ = (
         "name", "label", "role", "index", "body", "thread", "lock", "pending", "state", "killed",
-        "aborted", "timed_out", "nops", "outcome", "spins", "proc", "sig_pending", "wake_for_signal",
+        "aborted", "timed_out", "nops", "outcome", "spins", "proc", "sig_pending", "wake_for_signal", "is_thread",
     )
 
     def __init__(self, name, label, role, index, body):
@@ -76,6 +76,7 @@ class Task:
         self.proc = None
         self.sig_pending = []  # (signal number, python handler) to run in this task's main thread
         self.wake_for_signal = False
+        self.is_thread = False  # an additional thread of a simulated process (sim/simthreads.py)
 
 
 class Action:
@@ -116,6 +117,7 @@ class Kernel:
         self.main_task = None
         self.harness_error = None
         self.finished = False
+        self.time_driven = set()
 
     # ------------------------------------------------------------------ tasks
     def add_task(self, name, label, role, index, body):
@@ -218,6 +220,9 @@ class Kernel:
             op = t.pending
             if t.state == "done" or op is None or t.killed:
                 continue
+            if t.is_thread and t.proc.dead:
+                t.killed = True  # the threads of a process end with it
+                continue
             if getattr(t, "proc", None) is not None and t.proc.fault_withholds(t):
                 continue
             if op.can_run is None or op.can_run():
@@ -233,6 +238,7 @@ class Kernel:
     def run(self, main_task):
         """Run until `main_task` is done or a hang is declared (called by the controlling thread)."""
         self.main_task = main_task
+        self.time_driven = {main_task}
         nxt = self._schedule_safe()
         if nxt is not None:
             self._handoff(nxt)
@@ -256,11 +262,16 @@ class Kernel:
                 and self.now - self.frozen_since >= self.livelock_seconds
                 and self.hang is None
             ):
-                self.hang = (
-                    "livelock",
-                    "%d consecutive idle waits (%.1f simulated s) with nothing else able to move; %s"
-                    % (self.frozen_events, self.now - self.frozen_since, self._describe_blocked()),
-                )
+                mop = main_task.pending
+                if mop is not None and mop.can_timeout is None and not mop.idle_wait and mop.can_run is not None and not mop.can_run():
+                    # the main thread is blocked without deadline; only timers of helper threads tick
+                    self.hang = ("deadlock", self._describe_blocked())
+                else:
+                    self.hang = (
+                        "livelock",
+                        "%d consecutive idle waits (%.1f simulated s) with nothing else able to move; %s"
+                        % (self.frozen_events, self.now - self.frozen_since, self._describe_blocked()),
+                    )
             if self.hang is not None or main_task.state == "done" or self.harness_error is not None:
                 self.finished = True
                 return None
@@ -273,21 +284,36 @@ class Kernel:
                 self.hang = ("step-cap", "steps=%d" % self.steps)
                 continue
             calm = self.chaos_steps is not None and self.steps >= self.chaos_steps
-            idx = (benign if calm else self.policy.pick)(self, acts)
+            if len(acts) > 1 and all(a.kind == "timeout" or (a.kind == "task" and a.target.pending.idle_wait) for a in acts):
+                # nothing but the passage of time can happen: timers expire in deadline order (a scheduler
+                # that lets one thread's 1 s timer fire 300 times before another's 0.5 s time-out is not a
+                # schedule of any real clock)
+                idx = min(range(len(acts)), key=lambda i: (acts[i].target.pending.t_start + (acts[i].target.pending.timeout or 0.0), i))
+                forced = getattr(self.policy, "forced", None)
+                if forced is not None:
+                    forced(acts[idx].label)  # keeps a replayed label list aligned
+            else:
+                idx = (benign if calm else self.policy.pick)(self, acts)
             act = acts[idx]
             self.decisions.append(act.label)
             self.steps += 1
             self.now += self.STEP_COST
-            # livelock bookkeeping: only "time passes and nothing else can move" events count
-            is_idle_wait = act.kind == "timeout" or (
-                act.kind == "task" and act.target is main_task and act.target.pending.idle_wait
-            )
-            if is_idle_wait and all(a.target is main_task for a in acts):
+            # frozen-world bookkeeping: count the events in which nothing but the passage of time can make
+            # anything move.  `time_driven` holds the tasks whose activity is triggered by time-outs / sleeps
+            # only (the polling parent, a ticking helper thread, a polling long-lived worker): their own
+            # steps between two idle waits do not reset the count, anybody else's step does.
+            td = self.time_driven
+            is_idle_wait = act.kind == "timeout" or (act.kind == "task" and act.target.pending.idle_wait)
+            if is_idle_wait and all(a.kind == "timeout" or (a.kind == "task" and a.target.pending.idle_wait) for a in acts):
+                td.add(act.target)
                 if self.frozen_events == 0:
                     self.frozen_since = self.now
                 self.frozen_events += 1
-            elif act.kind != "task" or act.target is not main_task:
+            elif not (act.kind == "task" and act.target in td):
                 self.frozen_events = 0
+                if len(td) > 1:
+                    td.clear()
+                    td.add(main_task)
             t = self._execute(act)
             if t is not None:
                 return t
